@@ -206,10 +206,12 @@ impl Property for C05 {
         let plans = gen_plans(rng, &input, &cfg, long);
         let mut opts = opts;
         add_neutral_xargs_opts(rng, &mut opts);
+        // no command at all: the built-in echo prints what a command would have received
+        let echo_mode = rng.chance(1, 15) && !opts.iter().any(|o| matches!(o, Opt::Verbose));
         Sc {
             base: XargsScenario {
                 opts,
-                cmd: cmd(),
+                cmd: if echo_mode { vec!["echo".to_string()] } else { cmd() },
                 input: B(input),
                 read_plan: vec![],
                 outcomes: vec![],
@@ -218,6 +220,7 @@ impl Property for C05 {
                 real: None,
                 note: if long { "long".into() } else { "short".into() },
                 decoy_in_cwd: false,
+                echo_mode,
             },
             plans,
         }
@@ -278,10 +281,62 @@ impl Property for C05 {
         }
         let ncmd = sc.base.cmd.len();
         let mut baseline: Option<(Vec<Vec<Vec<u8>>>, RunStatus)> = None;
+        let mut echo_baseline: Option<(Vec<u8>, RunStatus)> = None;
         let mut samples = vec![];
         for (pi, plan) in sc.plans.iter().enumerate() {
             let obs = run_xargs_with(&sc.base, plan, ctx);
             rep.executions += 1;
+            if sc.base.echo_mode {
+                // judged on what xargs itself printed: one line per invocation, the arguments
+                // joined by single blanks, every byte as it was in the input
+                rep.probe("built_in_echo");
+                if let RunStatus::Panic(msg) = &obs.status {
+                    rep.fail("C05.panic", format!("plan #{pi}: xargs panicked: {msg}"));
+                    break;
+                }
+                if plan.iter().any(|o| matches!(o, ReadOp::Err(_))) {
+                    continue;
+                }
+                let mut want: Vec<u8> = vec![];
+                for argv in &exp.spawns {
+                    want.extend_from_slice(&argv[ncmd.min(argv.len())..].join(&b' '));
+                    want.push(b'\n');
+                }
+                if spec.unspecified.is_empty() && (obs.stdout != want || obs.status != RunStatus::Exit(exp.exit)) {
+                    rep.fail(
+                        "C05.echo-output",
+                        format!(
+                            "plan #{pi}: input [{}] opts {:?}: the built-in echo should print [{}] and exit {}, printed [{}] and ended with {:?}",
+                            crate::sys::show(&input[..input.len().min(200)]),
+                            sc.base.opts,
+                            crate::sys::show(&want[..want.len().min(300)]),
+                            exp.exit,
+                            crate::sys::show(&obs.stdout[..obs.stdout.len().min(300)]),
+                            obs.status
+                        ),
+                    );
+                    break;
+                }
+                match &echo_baseline {
+                    None => echo_baseline = Some((obs.stdout.clone(), obs.status.clone())),
+                    Some((b_out, b_status)) => {
+                        if *b_out != obs.stdout || *b_status != obs.status {
+                            rep.fail(
+                                "C05.chunking-dependence",
+                                format!(
+                                    "input [{}] opts {:?}: the built-in echo printed [{}] under plan #0 but [{}] under plan #{pi}",
+                                    crate::sys::show(&input[..input.len().min(200)]),
+                                    sc.base.opts,
+                                    crate::sys::show(&b_out[..b_out.len().min(200)]),
+                                    crate::sys::show(&obs.stdout[..obs.stdout.len().min(200)])
+                                ),
+                            );
+                            break;
+                        }
+                    }
+                }
+                continue;
+            }
             account_reads(&obs.log, input, states.as_deref(), &sep, rep);
             trace_status(&obs, rep);
             let spawns = obs.spawn_argvs();
@@ -641,6 +696,7 @@ fn sweep_scenario(mut i: u64) -> Sc {
             real: None,
             note: "sweep".into(),
             decoy_in_cwd: false,
+            echo_mode: false,
         },
         plans: vec![vec![], plan, plan2],
     }
